@@ -3,10 +3,10 @@
 usage: keepseed.py <PROP> <N>   (reads /tmp/mutout/<PROP>/mN.* and mN.eval.json)"""
 import json, os, shutil, sys
 prop, n = sys.argv[1], sys.argv[2]
-src = "/tmp/mutout/%s" % prop
+src = os.environ.get("MUTROOT", "/tmp/mutout") + "/%s" % prop
 ev = json.load(open(os.path.join(src, "m%s.eval.json" % n)))
 assert ev["confirmed"], "not confirmed"
-dst = "/verif/seeded/%s-m%s" % (prop, n)
+dst = "/verif/seeded/%s-%s%s" % (prop, os.environ.get("SEEDTAG", "m"), n)
 os.makedirs(dst, exist_ok=True)
 shutil.copy(os.path.join(src, "m%s.diff" % n), os.path.join(dst, "patch.diff"))
 shutil.copy(os.path.join(src, "m%s_demo.rs" % n), os.path.join(dst, "demo.rs"))
@@ -17,7 +17,7 @@ if os.path.exists(os.path.join(dst, "meta.json")):
     old = json.load(open(os.path.join(dst, "meta.json")))
 det = sorted(set(det) | set(old.get("detected_by", [])))
 meta = {
-    "id": "%s-m%s" % (prop, n), "property": prop, "origin": "independent sub-agent given only the property text and a scratch worktree",
+    "id": os.path.basename(dst), "property": prop, "origin": "independent sub-agent given only the property text and a scratch worktree",
     "what": md.strip().split("\n")[0][:400] if md else "", "notes": md.strip()[:1800],
     "needs": "see notes (what is needed to manifest) and demo.rs",
     "ran": "confirmed in scratch worktree /tmp/mw_verify: demo passes on the unmodified tree (%s); with the patch applied the demo fails (%s) while `cargo test --offline` (existing suite) and `cargo build --offline --features ram_bundle` still succeed" % (
